@@ -567,6 +567,16 @@ func (c *Ctx) asgKinds(s *tplState, nestDepth int, maxContents int) []asg {
 			out = append(out, asg{kind: "model.NestStruct", null: nm&1 != 0, init: nm&2 != 0, contents: cs})
 		}
 	}
+	if nestDepth >= 3 {
+		// three levels: nest{nest{nest{leaf}}} with every guard combination on the innermost two
+		for nm := 0; nm < 4; nm++ {
+			for _, in := range inner[:2] {
+				n3 := asg{kind: "model.NestStruct", null: nm&1 != 0, init: nm&2 != 0, contents: []asg{in}}
+				n2 := asg{kind: "model.NestStruct", null: nm&2 != 0, init: nm&1 != 0, contents: []asg{in, n3}}
+				out = append(out, asg{kind: "model.NestStruct", null: true, init: false, contents: []asg{n2, in}})
+			}
+		}
+	}
 	if nestDepth >= 2 {
 		// one more level: a nest whose contents are [leaf?, nest{leaf…}]
 		for nm := 0; nm < 4; nm++ {
@@ -598,7 +608,11 @@ func (c *Ctx) asgMembers(s *tplState) *tally {
 	}
 	t := newTally()
 	c.asgTally = t
-	kinds := c.asgKinds(s, 2, map[bool]int{true: 2, false: 1}[c.Tier == "thorough"])
+	depth := 2
+	if c.Tier == "thorough" && s.x.MaxDepth >= 4 {
+		depth = 3
+	}
+	kinds := c.asgKinds(s, depth, map[bool]int{true: 2, false: 1}[c.Tier == "thorough"])
 	// the implementers seen by go/types must all be exercised
 	seen := map[string]bool{}
 	for _, k := range kinds {
@@ -648,6 +662,16 @@ func (c *Ctx) asgMembers(s *tplState) *tally {
 					continue
 				}
 				judgeOne(h, []asg{a, b})
+			}
+		}
+		if c.Tier == "thorough" {
+			leafs := kinds[:7]
+			for _, a := range leafs {
+				for _, b := range leafs {
+					for _, cc := range leafs {
+						judgeOne(h, []asg{a, b, cc})
+					}
+				}
 			}
 		}
 	}
